@@ -145,7 +145,7 @@ FAMS_FLOAT = [
 ]
 
 
-def base_instance(rng, fam, *, small):
+def base_instance(rng, fam, *, small, acyclic=False):
     n_na = rng.choice(fam["n_na"])
     n_abs = rng.choice([1, 1, 2])
     K = 2 if fam.get("rand") else rng.choice([1, 2, 2, 3])
@@ -153,6 +153,9 @@ def base_instance(rng, fam, *, small):
         n_abs = 1
     m = gen.rand_mdp(rng, n_na=n_na, n_abs=n_abs, K=K, PD=fam["PD"], GN=fam["GN"], GD=fam["GD"],
                      rewards=fam["rewards"], ID=rng.choice([2, 4]), force_progress=True, init_on_abs=0.4)
+    if acyclic:
+        acyclify(rng, m)
+        m["acyclic"] = 1
     if not gen.magnitude_ok(m, QD=6):
         return None
     vs = pyoracle.optimal_value(m)
@@ -176,13 +179,35 @@ def base_instance(rng, fam, *, small):
     return m, vs
 
 
+def acyclify(rng, m):
+    """Redirect every transition of a non-absorbing state that does not go to a strictly later state (in a random
+    order of the non-absorbing states, absorbing states last) to a later one: no self-loops, no cycles.  On such
+    an MDP every value is final after one backward sweep, so LRTDP reaches residual exactly 0 in finitely many
+    updates and bellman_error_margin = 0 (exact convergence requested) is a configuration the statement covers."""
+    N, K = m["N"], m["K"]
+    na = [s for s in range(N) if not m["abs"][s]]
+    rng.shuffle(na)
+    rank = {s: i for i, s in enumerate(na)}
+    for s in range(N):
+        if m["abs"][s]:
+            rank[s] = N + 1
+    for s in na:
+        later = [t for t in range(N) if rank[t] > rank[s]]
+        for a in range(K):
+            for t in range(N):
+                if m["P"][s][a][t] > 0 and rank[t] <= rank[s]:
+                    m["P"][s][a][rng.choice(later)] += m["P"][s][a][t]
+                    m["P"][s][a][t] = 0
+    return m
+
+
 def make_mc_instance(rng, fam, tier):
-    r = base_instance(rng, fam, small=True)
+    r = base_instance(rng, fam, small=True, acyclic=(rng.random() < 0.12))
     if r is None:
         return None
     m, vs = r
     n_na = sum(1 for x in m["abs"] if not x)
-    eps = F(1, rng.choice([2, 4, 8]))
+    eps = F(0) if m.get("acyclic") else F(1, rng.choice([2, 4, 8]))
     kind = rng.choice(["zero", "tight", "loose", "loose", "const"])
     L = rng.choice([2, 3, 4])
     if m["rand"]:
@@ -574,6 +599,8 @@ def real_run(m, rep, *, script=None, seed=0, randomize=False, iterations=3000, l
 # judging a real run on its own output (the only source of VIOLATIONs)
 # =============================================================================================
 def judge_record(m, run, tag, oracle=1):
+    if "collapse" in m:                          # TLC sees the collapsed instance (see make_rare_case)
+        m = m["collapse"]["m"]
     rec = {k: m[k] for k in ("N", "K", "PD", "GN", "GD", "ID", "abs", "avail", "P", "R", "p0", "KB", "EPS", "L", "h",
                              "aord", "rand", "zl", "lst", "i0")}
     pol = [[1 if a in run["pol"].get(s, {}) else 0 for a in range(m["K"])] for s in range(m["N"])]
@@ -642,6 +669,7 @@ def judge_run(ctx, m, run, jr, case, *, pyx=False, orc=None):
     orc = orc if orc is not None else jr
     two = "ka" in m
     mx = m
+    col = m.get("collapse")
     if two:
         # two-scale rewards: TLC's values are pairs (A, B) of the symbolic scales; V = 2^ka * A + 2^kb * B
         if not jr["ok"]:
@@ -662,6 +690,13 @@ def judge_run(ctx, m, run, jr, case, *, pyx=False, orc=None):
         steps = [frac(x) for x in jr["steps"]]
         vinit, pinit, ninit = frac(orc["vinit"]), frac(jr["pinit"]), frac(jr["ninit"])
         tpv = [frac(x) for x in jr["pv"]]
+        if col:
+            # TLC evaluated the collapsed instance; the extra state `bad` has one action, straight to an absorbing
+            # state: its value is that reward and it takes one step, under every policy
+            vstar.append(F(col["vbad"]))
+            tpv.append(F(col["vbad"]))
+            steps.append(F(1))
+            pyx = True             # the collapse is an assumption of the encoding: always cross-checked
     m_real, m = m, mx
     if pyx:
         # machinery cross-check of the TLA+ oracle against the independent Fraction implementation
@@ -672,6 +707,10 @@ def judge_run(ctx, m, run, jr, case, *, pyx=False, orc=None):
              for s in range(N) if not m["abs"][s]}
         ppv = pyoracle.policy_value(m, w)
         pst = steps_of(m, w)
+        if col:                    # expected steps of the uncollapsed instance exceed the collapsed ones by <= 2^-29
+            if any(not (0 <= pst[s] - steps[s] <= F(1, 2 ** (RARE - 1))) for s in range(N)):
+                raise TLCFailure(f"collapsed and uncollapsed expected steps differ: {steps} vs {pst}")
+            pst = steps
         if any(ppv[s] != tpv[s] for s in range(N)) or any(pst[s] != steps[s] for s in range(N)):
             raise TLCFailure(f"TLA+ and Python oracles disagree on the returned policy: {tpv}/{steps} vs {ppv}/{pst}")
         ctx.count("oracle_crosschecks")
@@ -684,10 +723,13 @@ def judge_run(ctx, m, run, jr, case, *, pyx=False, orc=None):
     # error of a few units to numbers of magnitude <= M, the residual test is made on such numbers, and
     # (I - gamma P)^-1 amplifies a per-state error by at most N^pi.  1e-13 * M * (1 + N^pi) is ~100x that bound.
     # (A slack *relative* to the values, like 1e-9 * |V|, would hide a residual test that is off by as much.)
-    M = max([1.0] + [abs(float(x)) for x in vstar] + [abs(x) for x in hv] + [abs(x) for x in run["V"].values()])
+    # (the value of the rare `bad` state only ever enters a backup multiplied by 2^-30: it is left out of M)
+    keep = [s for s in range(N) if not col or s != col["bad"]]
+    M = max([1.0] + [abs(float(vstar[s])) for s in keep] + [abs(hv[s]) for s in keep]
+            + [abs(x) for s_, x in run["V"].items() if s_ in keep])
 
     def slack(nsteps):
-        return 1e-12 + 1e-13 * M * (1 + float(nsteps))
+        return 1e-12 + 1e-13 * M * (1 + float(nsteps)) + (margin * 2.0 ** -(RARE - 1) if col else 0.0)
     # ---- clause 2: the values of the touched states never fall below the optimum
     for sn in run["snaps"] + [{"kind": "final", "keys": list(run["V"]), "vals": run["V"]}]:
         for s in sn["keys"]:
@@ -1014,6 +1056,9 @@ def make_free_cases(rng, n, tier):
     cases = []
     while len(cases) < n:
         exact = len(cases) % 2 == 0
+        if len(cases) % 16 in (5, 13):                # rare catastrophic outcome (probability 2^-30)
+            cases.append(make_rare_case(rng))
+            continue
         if len(cases) % 8 == 3:                       # two-scale rewards (extreme magnitudes / near-ties below 1e-8)
             cases.append(make_two_scale_case(rng, "big" if len(cases) % 16 == 3 else "fine"))
             continue
@@ -1035,7 +1080,7 @@ def make_free_cases(rng, n, tier):
                           "randomize": rng.random() < 0.5, "iterations": 4000, "exact": True})
             continue
         fam = rng.choice(FAMS_MC[:5] + FAMS_MC[7:]) if exact else rng.choice(FAMS_FLOAT)
-        r = base_instance(rng, dict(fam, rand=0), small=False)
+        r = base_instance(rng, dict(fam, rand=0), small=False, acyclic=(rng.random() < 0.1))
         if r is None:
             continue
         m, vs = r
@@ -1045,8 +1090,12 @@ def make_free_cases(rng, n, tier):
         else:
             eps = F(1, rng.choice([10, 100, 100, 1000, 10000]))
             m["margin"] = float(eps)
+        if m.get("acyclic"):                         # exact convergence requested
+            eps = F(0)
+            if not exact:
+                m["margin"] = 0.0
         kind = rng.choice(["zero", "tight", "loose", "loose", "const"])
-        h, kind = heuristic(rng, m, vs, kind, eps if exact else F(1, 128))
+        h, kind = heuristic(rng, m, vs, kind, (eps or F(1, 8)) if exact else F(1, 128))
         sc = 2 ** m["KB"]
         m.update(EPS=int(eps * sc) if exact else 1, L=rng.choice([10 ** 6, 10 ** 6, 2, 3, 5]), h=[int(x * sc) for x in h],
                  hkind=kind, mode="free")
@@ -1291,6 +1340,68 @@ def make_deeptie_instance(rng, *, kb=KB, mode="mc", rand=0):
              i0=[1 if q > 0 else 0 for q in p0], oracle=1, mode=mode, shared_actions=rng.choice(["", "list", "list", "tuple"]))
     assert all(int(y * sc) == y * sc for y in h)
     return m
+
+
+RARE = 30                                              # the rare outcome has probability 2^-30 (9.3e-10)
+
+
+def make_rare_case(rng):
+    """Targeted family "rare catastrophic outcome": one action has an outcome of probability delta = 2^-30 into a
+    state `bad` whose only action pays -c * 2^30 on its way to an absorbing state, so that the rare outcome costs
+    gamma * c in expectation - far more than the margin.  Numbers like these do not fit the 32-bit arithmetic of
+    TLC; the instance TLC sees is the *collapsed* one: the action's branch (1/2 - delta into g, reward 0) +
+    (delta into bad, reward 0) is replaced by (1/2 into g, reward -2 * gamma * c), which has exactly the same
+    expected one-step value for every value function (values are linear in the transition row and
+    V(bad) = -c * 2^30 under every policy); V*, V^pi coincide on the common states (cross-checked on every run
+    against the Fraction oracle applied to the uncollapsed instance), N^pi differs by delta * occupancy <= 2^-29.
+    msdm is run on the uncollapsed instance (probabilities over 2^31, exactly representable doubles)."""
+    while True:
+        g_n, g_d = rng.choice([(1, 1), (1, 1), (1, 2)])
+        r = base_instance(rng, dict(GN=g_n, GD=g_d, PD=2, rewards=(-2, -1, 0), n_na=(1, 2, 2, 3), rand=0), small=False)
+        if r is None:
+            continue
+        ma, _ = r
+        N, K = ma["N"], ma["K"]
+        cand = [(s, a, t) for s in range(N) if not ma["abs"][s] for a in range(K) if ma["avail"][s][a]
+                for t in range(N) if ma["abs"][t] and ma["P"][s][a][t] == 1]
+        if not cand:
+            continue
+        s, a, g = rng.choice(cand)
+        c = rng.choice([1, 2, 3]) if g_d == 1 else rng.choice([2, 4])
+        ma["R"][s][a][g] = -2 * c * g_n // g_d                  # = -2 * gamma * c
+        vs = pyoracle.optimal_value(ma)
+        if any(v == pyoracle.NEG for v in vs) or not gen.magnitude_ok(ma, QD=6):
+            continue
+        eps = F(1, rng.choice([8, 64, 1000]))
+        kind = rng.choice(["zero", "tight", "loose", "const"])
+        h, kind = heuristic(rng, ma, vs, kind, F(1, 8))
+        ma.update(KB=KB, EPS=1, L=1, h=[int(x * SC) for x in h], hkind=kind + "+rare", mode="free", margin=float(eps))
+        # the uncollapsed instance msdm runs on: one more state `bad` (index N)
+        big = 2 ** RARE
+        mr = {k: ma[k] for k in ("K", "GN", "GD", "ID", "margin", "KB", "EPS", "zl", "rand", "oracle", "hkind", "mode")}
+        mr["N"] = N + 1
+        mr["PD"] = 2 * big
+        mr["abs"] = ma["abs"] + [0]
+        mr["avail"] = [list(x) for x in ma["avail"]] + [[1] + [0] * (K - 1)]
+        mr["P"] = [[[ma["P"][i][j][t] * big for t in range(N)] + [0] for j in range(K)] for i in range(N)] + \
+                  [[[0] * (N + 1) for _ in range(K)]]
+        mr["R"] = [[list(ma["R"][i][j]) + [0] for j in range(K)] for i in range(N)] + [[[0] * (N + 1) for _ in range(K)]]
+        mr["P"][s][a][g] = big - 2
+        mr["P"][s][a][N] = 2                                    # 2 / 2^31 = 2^-30
+        mr["R"][s][a][g] = 0
+        mr["P"][N][0][g] = 2 * big
+        mr["R"][N][0][g] = -c * big
+        mr["p0"] = ma["p0"] + [0]
+        mr["i0"] = ma["i0"] + [0]
+        mr["lst"] = [1] * (N + 1)
+        mr["aord"] = [list(o) for o in ma["aord"]] + [[1]]
+        mr["L"] = rng.choice([10 ** 6, 10 ** 6, 4])
+        hb = rng.choice([0.0, 0.0, -c * big / 2, float(-c * big)])      # optimistic (or exact) at the bad state
+        mr["hfloat"] = [x / SC for x in ma["h"]] + [hb]
+        mr["h"] = ma["h"] + [0]
+        mr["collapse"] = {"bad": N, "m": ma, "vbad": -c * big}
+        return {"m": mr, "rep": dict(REPS[rng.choice([0, 1, 2, 4, 5])]), "seed": rng.randrange(10 ** 6),
+                "randomize": rng.random() < 0.5, "iterations": 4000, "exact": False}
 
 
 def make_two_scale_case(rng, kind):
